@@ -107,7 +107,10 @@ class TaskLoader:
 
         return shim
 
-    def _run_include(self, candidate_path: str):
+    def _run_include(self, path: str):
+        # N.B. The parameter is named `path` because that is how `include()` is
+        # documented (i.e., `include(path="...")` must work too).
+        candidate_path = path
         assert self._current_cond_file_path is not None
         assert self._curr_exec_scope is not None
 
